@@ -153,6 +153,43 @@ pub fn run(ctx: &mut Ctx) {
             }
         }
     }
+    // ---- a null container read into a non-Option target must be an error, never the values hidden below the null
+    {
+        use marrow::array::*;
+        use marrow::datatypes::{FieldMeta, MapMeta};
+        let meta = |n: &str, nullable: bool| FieldMeta { name: n.into(), nullable, metadata: Default::default() };
+        let ints = || Array::Int32(PrimitiveArray { validity: None, values: vec![7, 8, 9] });
+        #[derive(serde::Deserialize, Debug, PartialEq)] struct P { x: i32 }
+        let list_f = mk("item", DataType::List(Box::new(mk("element", DataType::Int32, false))), true);
+        let list_a = Array::List(ListArray { validity: Some(vec![0b101]), offsets: vec![0, 1, 2, 3], meta: meta("element", false), elements: Box::new(ints()) });
+        let llist_f = mk("item", DataType::LargeList(Box::new(mk("element", DataType::Int32, false))), true);
+        let llist_a = Array::LargeList(ListArray { validity: Some(vec![0b101]), offsets: vec![0, 1, 2, 3], meta: meta("element", false), elements: Box::new(ints()) });
+        let fsl_f = mk("item", DataType::FixedSizeList(Box::new(mk("element", DataType::Int32, false)), 1), true);
+        let fsl_a = Array::FixedSizeList(FixedSizeListArray { len: 3, n: 1, validity: Some(vec![0b101]), meta: meta("element", false), elements: Box::new(ints()) });
+        let st_f = mk("item", DataType::Struct(vec![mk("x", DataType::Int32, false)]), true);
+        let st_a = Array::Struct(StructArray { len: 3, validity: Some(vec![0b101]), fields: vec![(meta("x", false), ints())] });
+        let map_f = mk("item", DataType::Map(Box::new(mk("entries", DataType::Struct(vec![mk("key", DataType::Int32, false), mk("value", DataType::Int32, false)]), false)), false), true);
+        let map_a = Array::Map(MapArray { validity: Some(vec![0b101]), offsets: vec![0, 1, 2, 3], meta: MapMeta { entries_name: "entries".into(), sorted: false, keys: meta("key", false), values: meta("value", false) }, keys: Box::new(ints()), values: Box::new(ints()) });
+        let mut check = |ctx: &mut Ctx, kind: &str, r: Out<String>| {
+            ctx.count(&format!("null_container_into_non_option:{}:{}", kind, r.class()));
+            let accepted = matches!(r, Out::Ok(_));
+            let idx = ctx.add_case(format!("(CMalformed {} {} {})", cf::text(kind), cf::text("null row read into a non-Option target"), cf::boolean(accepted)), json!({"kind": kind, "impl": match &r { Out::Ok(a) => format!("Ok({})", a), Out::Err(e) => format!("Err({})", e), Out::Panic(p) => format!("Panic({})", p) }}), true);
+            if let Out::Ok(v) = &r { ctx.fail(idx, "null_replaced_by_hidden_values", format!("a null {} row read into a non-Option target returned {}", kind, v)); }
+            if let Out::Panic(p) = &r { ctx.fail(idx, "panic", p.clone()); }
+        };
+        let rd = |f: &Field, a: &Array| -> (Field, Array) { (f.clone(), a.clone()) };
+        for (kind, (f, a)) in [("List", rd(&list_f, &list_a)), ("LargeList", rd(&llist_f, &llist_a)), ("FixedSizeList", rd(&fsl_f, &fsl_a))] {
+            let v = a.as_view();
+            check(ctx, kind, guarded(|| serde_arrow::from_marrow::<Vec<Item<Vec<i32>>>>(std::slice::from_ref(&f), std::slice::from_ref(&v)).map(|x| format!("{:?}", x)).map_err(|e| e.to_string())));
+            check(ctx, &format!("{} as tuple", kind), guarded(|| serde_arrow::from_marrow::<Vec<Item<(i32,)>>>(std::slice::from_ref(&f), std::slice::from_ref(&v)).map(|x| format!("{:?}", x)).map_err(|e| e.to_string())));
+        }
+        { let v = st_a.as_view(); check(ctx, "Struct", guarded(|| serde_arrow::from_marrow::<Vec<Item<P>>>(std::slice::from_ref(&st_f), std::slice::from_ref(&v)).map(|x| format!("{:?}", x)).map_err(|e| e.to_string())));
+          check(ctx, "Struct as map", guarded(|| serde_arrow::from_marrow::<Vec<Item<std::collections::BTreeMap<String, i32>>>>(std::slice::from_ref(&st_f), std::slice::from_ref(&v)).map(|x| format!("{:?}", x)).map_err(|e| e.to_string())));
+          check(ctx, "Struct as tuple", guarded(|| serde_arrow::from_marrow::<Vec<Item<(i32,)>>>(std::slice::from_ref(&st_f), std::slice::from_ref(&v)).map(|x| format!("{:?}", x)).map_err(|e| e.to_string()))); }
+        { let v = map_a.as_view(); check(ctx, "Map", guarded(|| serde_arrow::from_marrow::<Vec<Item<std::collections::BTreeMap<i32, i32>>>>(std::slice::from_ref(&map_f), std::slice::from_ref(&v)).map(|x| format!("{:?}", x)).map_err(|e| e.to_string()))); }
+        // the same rows read into Option targets are None (control)
+        { let v = list_a.as_view(); let r = serde_arrow::from_marrow::<Vec<Item<Option<Vec<i32>>>>>(std::slice::from_ref(&list_f), std::slice::from_ref(&v)); ctx.count(&format!("null_container_into_option:{}", match r { Ok(x) if x[1].0.is_none() && x[0].0 == Some(vec![7]) => "none_as_expected", Ok(_) => "unexpected", Err(_) => "err" })); }
+    }
     ctx.extra.insert("exhaustive".into(), json!(true));
     ctx.extra.insert("exhaustive_domain".into(), json!("value pool x column types x nullability (writing); boundary values x 8 integer columns + Boolean x 13 requests (reading)"));
     
